@@ -36,18 +36,4 @@ Definition known_C20_chain_name (c : tree_case) : bool :=
   existsb (fun m => negb (chain_names_ok m)) (tc_models c).
 Definition known_C20_collision (c : tree_case) : bool :=
   negb (no_collision (tc_orm c) (tc_models c)).
-(* DESIGN D5 (C18): the Python exporters print `from datetime import a, b` in HashSet iteration order, so two
-   renderings of one table may differ byte-wise when it uses two of date / time / datetime *)
-Definition datetime_cat (t : column_type) : list string :=
-  match t with
-  | TSimple Date => ["date"] | TSimple Time => ["time"]
-  | TSimple Timestamp | TSimple Timestamptz => ["datetime"]
-  | _ => []
-  end.
-Definition two_datetime_cats (t : table_def) : bool :=
-  Nat.leb 2 (List.length (bs_of_list (flat_map (fun c => datetime_cat (c_type c)) (t_columns t)))).
-Definition known_C20_python_import_order (c : tree_case) : bool :=
-  (match tc_orm c with SeaOrm => false | _ => true end
-   && existsb (fun m => two_datetime_cats (em_table m)) (tc_models c))%bool.
-Definition classify_tree (c : tree_case) : list bool :=
-  [known_C20_chain_name c; known_C20_collision c; known_C20_python_import_order c].
+Definition classify_tree (c : tree_case) : list bool := [known_C20_chain_name c; known_C20_collision c].
